@@ -13,6 +13,14 @@ that can enter a cross-process sum (counter/summary/histogram `_sum`/gauge sum m
 declaratively (the reported value is one of the contributions and none is smaller / greater / more recent), so a tie or
 a NaN never pins down more than the property does.
 
+FOREIGN FILES: step ['foreign', pid, mi, labelvalues, [[le_text, count_bits], ...], sum_bits] writes or extends
+`histogram_<pid>.db` DIRECTLY through the library's own store (`MmapedDict` + `mmap_key`), as an older client version or
+another client would leave it: bucket keys whose `le` is spelled non-canonically ('1', '1.00', '1e6', '+inf',
+'Infinity', '1.5e+010', ...), bounds the live histograms do not have, two spellings of one bound in one file, label sets
+and histograms no live process has.  Such a pid is never a simulated process.  In the oracle it is one more holder whose
+buckets are keyed by float(le_text); the exposed `le` must be the canonical rendering of the bound (C13's independent
+oracle, `canonical_le`) and one bound must be exposed once (sig C08:le-not-canonical, checked before everything else).
+
 MODEL: at every collection point the files (read through the real store reader, in the collector's glob order) go to
 driver `c08 merge`; the model M and the spec S outputs are both compared with the real collector's output; every
 `mark_process_dead` goes to `c08 dead`.
@@ -51,8 +59,23 @@ SPECIAL = [NAN, INF, -INF]
 HIST_AMOUNTS = [0.0, 0.125, 0.5, 1.0, 2.0, 2.5, 3.0, 8.0, 0.0625, 1024.0, 1000000.0, 2000000.0, float(2 ** 40), -1.0,
                 -0.5, -2.0, 10.0, 0.25, 0.75, 5.0, 7.5]
 PID_POOL = [1, 2, 3, 7, 10, 11, 12, 123, 4567]
+FOREIGN_PIDS = [5, 6, 8, 9, 100, 77, 5000, 31337]       # never simulated processes: no live mmap is open on their files
 LABEL_VALUES = ['', 'x', 'y', 'é', 'a"b\\c', 'x y']
 LABEL_NAMES = [['l'], ['k'], ['l', 'k'], ['k', 'l'], ['a_b']]
+# names that sort AFTER 'le': in a histogram bucket key (labels sorted by name) `le` is then NOT the last label
+LATE_LABEL_NAMES = [['method'], ['path', 'zone'], ['l', 'zone'], ['lf'], ['zone'], ['méthode'], ['ü', 'k']]
+# non-canonical (and canonical) spellings a foreign store file may carry for a bound
+SPELLINGS = {
+    1.5e10: ['1.5e+010', '15000000000.0', '1.5e10', '1.5e+10'],
+    1e6: ['1000000.0', '1e6', '1e+06', '1E6'],
+    1e16: ['1e16', '1e+16', '10000000000000000.0'],
+    0.5: ['0.50', '.5', '5e-1', '0.5'],
+    1.0: ['1', '1.0', '1.00', '1e0'],
+    2.5: ['2.50', '2.5', '25e-1'],
+    10.0: ['10', '1e1', '10.0'],
+    4.0: ['4', '4.0', '0.4e1'],
+    INF: ['+inf', 'inf', 'Infinity', '+Inf', 'INF'],
+}
 LIVE = 'live'
 
 
@@ -69,6 +92,63 @@ def is_mostrecent(md):
     return md['kind'] == 'gauge' and md['mode'] in ('mostrecent', 'livemostrecent')
 
 
+def canonical_le(b):
+    """the canonical exposition text of a bound, from C13's independent oracle (exact decimal expansion of repr)"""
+    from props import c13
+    if b != b:
+        return 'NaN'
+    if b == INF:
+        return '+Inf'
+    if b == -INF:
+        return '-Inf'
+    r = repr(b)
+    if b > 0 and 'e' not in r and r.find('.') > 6:
+        return c13.go_expected(b)
+    return r
+
+
+def check_bound_table():
+    """the hand-written texts of LAYOUTS must agree with the independent canonical rendering (once per run)"""
+    for b, t in BOUND_TEXT.items():
+        if canonical_le(b) != t:
+            raise lib.Infra('hand-written bound text %r for %r disagrees with the canonical rendering %r' % (t, b, canonical_le(b)))
+    for b, texts in SPELLINGS.items():
+        for t in texts:
+            if lib.bits_of(float(t)) != lib.bits_of(b):
+                raise lib.Infra('spelling %r does not denote the bound %r' % (t, b))
+
+
+def check_le_canonical(canon):
+    """on the REAL output: every exposed bucket bound is spelled canonically and exposed once per label set"""
+    probs = []
+    for name in sorted(canon):
+        doc, typ, ss = canon[name]
+        if typ != 'histogram':
+            continue
+        seen = {}
+        for (sn, L) in sorted(ss):
+            if sn != name + '_bucket':
+                continue
+            le = dict(L).get('le')
+            rest = tuple(kv for kv in L if kv[0] != 'le')
+            if le is None:
+                continue        # a bucket sample without `le`: the generic series comparison reports it
+            try:
+                b = float(le)
+            except ValueError:
+                probs.append(('C08:le-not-canonical', 'family %s label set %r: exposed le=%r is not a number' % (name, dict(rest), le)))
+                continue
+            if le != canonical_le(b):
+                probs.append(('C08:le-not-canonical', 'family %s label set %r: exposed le=%r for bound %r, canonical is %r' % (
+                    name, dict(rest), le, b, canonical_le(b))))
+            k = (rest, lib.bits_of(b))
+            if k in seen:
+                probs.append(('C08:le-not-canonical', 'family %s label set %r: bound %r exposed twice as %r and %r: not merged' % (
+                    name, dict(rest), b, seen[k], le)))
+            seen[k] = le
+    return probs
+
+
 # ================================================================================================== the oracle
 class Oracle:
     """What each process holds, from the op log alone, and the aggregate the property demands.
@@ -83,6 +163,7 @@ class Oracle:
         self.pool = pool
         self.held = {}
         self.filemeta = {}
+        self.foreign_texts = {}     # (pid, family, labels) -> {le text: count}  (one store key per spelling)
 
     def _fam(self, pid, md):
         pre = prefix_of(md)
@@ -140,6 +221,22 @@ class Oracle:
                 cell[0] += x if op == 'inc' else -x
                 cell[1] = 0.0
 
+    def foreign(self, pid, mi, lvs, buckets, total):
+        """a store file written by somebody else: per le TEXT the last count written; as a holder its buckets are keyed
+        by the bound the text denotes (two spellings of one bound both count), `_sum` as written"""
+        md = self.pool[mi]
+        fam = self._fam(pid, md)
+        L = self.labels_of(md, lvs)
+        texts = self.foreign_texts.setdefault((pid, md['name'], L), {})
+        for text, count in buckets:
+            texts[text] = count
+        bs = {}
+        for text, count in texts.items():
+            b = float(text)
+            bs[b] = bs.get(b, 0.0) + count
+        fam['buckets'][L] = bs
+        fam['series'][(md['name'] + '_sum', L)] = [total, 0.0]
+
     def dead(self, pid):
         per = self.held.get(pid, {})
         for pre in [p for p in per if p.startswith('gauge_' + LIVE)]:
@@ -156,7 +253,7 @@ class Oracle:
         out = {}
         for md in self.pool:
             pre, name, kind = prefix_of(md), md['name'], md['kind']
-            holders = [(pid, self.held[pid][pre][name]) for pid in sorted(self.held)
+            holders = [(pid, self.held[pid][pre][name]) for pid in sorted(self.held, key=str)
                        if pre in self.held[pid] and name in self.held[pid][pre]]
             if not holders:
                 continue
@@ -181,8 +278,8 @@ class Oracle:
                     for b in sorted(m):
                         acc += m[b]
                         cum[b] = acc
-                        series[(name + '_bucket', tuple(sorted(L + (('le', BOUND_TEXT[b]),))))] = ('eq', acc)
-                    series[(name + '_count', L)] = ('eq', cum[INF])
+                        series[(name + '_bucket', tuple(sorted(L + (('le', canonical_le(b)),))))] = ('eq', acc)
+                    series[(name + '_count', L)] = ('eq', cum.get(INF, acc))
             if kind == 'gauge':
                 mode = md['mode']
                 base = mode[len(LIVE):] if mode.startswith(LIVE) else mode
@@ -394,6 +491,9 @@ class World:
             self.end(st[1])
             self.proc(st[1])
             return
+        if op == 'foreign':
+            self.foreign(i, st)
+            return
         pid, mi = st[1], st[2]
         md = self.pool[mi]
         p = self.proc(pid)
@@ -421,6 +521,41 @@ class World:
         except Exception as e:  # noqa  -- creation itself failed
             res.failures.append(('C08:raises', 'step %r raised %s: %s' % (st, type(e).__name__, e), i))
 
+    def foreign(self, i, st):
+        """write/extend histogram_<pid>.db directly through the library's own store"""
+        from prometheus_client.mmap_dict import MmapedDict, mmap_key
+        res = self.res
+        pid, mi = st[1], st[2]
+        md = self.pool[mi]
+        if md['kind'] != 'histogram' or pid in self.procs or pid in self.incarnation:
+            res.count('foreign:skipped')        # (shrunk lists) not a histogram / the pid belongs to a simulated process
+            return
+        lvs = lvs_of(md, st[3])
+        buckets = [(t, lib.from_bits(c)) for t, c in st[4]]
+        total = lib.from_bits(st[5])
+        n = md['name']
+        path = os.path.join(self.sim.dir, 'histogram_%s.db' % pid)
+        d = MmapedDict(path)
+        try:
+            for text, count in buckets:
+                d.write_value(mmap_key(n, n + '_bucket', tuple(md['labels']) + ('le',), tuple(lvs) + (text,), md['help']), count, 0.0)
+            d.write_value(mmap_key(n, n + '_sum', tuple(md['labels']), tuple(lvs), md['help']), total, 0.0)
+        finally:
+            d.close()
+        self.oracle.foreign(pid, mi, lvs, buckets, total)
+        self.events += 1
+        names = [os.path.basename(p) for p in self.sim.listing()]
+        mine = 'histogram_%s.db' % pid
+        live = [k for k, bn in enumerate(names) if bn.startswith('histogram_') and int(bn[10:-3]) in self.incarnation]
+        if mine in names and live:
+            at = names.index(mine)
+            res.count('foreign:listed-before-live' if at < min(live) else ('foreign:listed-after-live' if at > max(live) else 'foreign:listed-between-live'))
+        else:
+            res.count('foreign:no-live-histogram-file')
+        for text, _ in buckets:
+            if text != canonical_le(float(text)):
+                res.count('foreign:non-canonical-spelling')
+
     def collect_point(self, i, want_model=True):
         res = self.res
         res.count('points')
@@ -431,6 +566,8 @@ class World:
             res.points.append((None, None))
             return
         canon, dups = mpsim.canon_fams(real)
+        for sig, what in check_le_canonical(canon):
+            res.failures.append((sig, what, i))
         for d in dups:
             res.failures.append(('C08:duplicate-series', d, i))
         for sig, what in check_oracle(canon, self.oracle.expected()):
@@ -464,8 +601,15 @@ class World:
         res.points.append((key, sample))
 
 
+def le_not_last(md):
+    return md['kind'] == 'histogram' and any(n > 'le' for n in md['labels'])
+
+
 def run_scenario(scen, want_model=True, want_sample=False):
     res = Result()
+    for md in scen['pool']:
+        if md['kind'] == 'histogram' and md['labels']:
+            res.count('histogram-labelled:' + ('le-not-last' if le_not_last(md) else 'le-last'))
     with mpsim.Sim() as sim:
         w = World(sim, scen['pool'], res, want_sample)
         for i, st in enumerate(scen['steps']):
@@ -564,12 +708,84 @@ def corpus():
         s += [['dead', 2], ['obs', 1, 0, [], B(INF)], ['reuse', 2], ['obs', 2, 0, [], B(0.5)], ['child', 2, 1, ['é']],
               ['obs', 3, 1, ['x'], B(NAN)]]
         out.append({'pool': pool, 'steps': s})
+    out += foreign_corpus()
     return out
+
+
+def F(pid, mi, lvs, pairs, total):
+    return ['foreign', pid, mi, list(lvs), [[t, B(c)] for t, c in pairs], B(total)]
+
+
+def foreign_corpus():
+    """foreign / stale store files with non-canonical `le` spellings; histograms whose label names sort after 'le'"""
+    pool = [mdef('histogram', 'h', (), '', 'small'), mdef('histogram', 'hz', ['zone'], '', 'big'),
+            mdef('histogram', 'hx', ['l'], '', 'dec'), mdef('histogram', 'hd', (), '', 'default'),
+            mdef('histogram', 'hm', ['l', 'zone'], '', 'small')]
+    S = []
+    # the foreign file is the only file
+    S.append([F(5, 0, [], [('1', 2.0), ('+inf', 1.0)], 3.0)])
+    # several spellings of one bound inside ONE file: distinct keys, all count
+    S.append([F(5, 0, [], [('1', 1.0), ('1.0', 2.0), ('1.00', 4.0), ('Infinity', 1.0), ('inf', 2.0)], 7.75),
+              ['obs', 1, 0, [], B(1.0)], ['obs', 2, 0, [], B(3.0)]])
+    # live first, foreign later; and the other way round (the listing decides which is read first)
+    S.append([['obs', 1, 0, [], B(1.0)], F(5, 0, [], [('1', 2.0), ('2.50', 1.0), ('+inf', 0.0)], 4.0),
+              ['obs', 2, 0, [], B(2.5)], F(9, 0, [], [('1.00', 1.0), ('INF', 2.0)], 1.0), ['obs', 1, 0, [], B(8.0)]])
+    S.append([F(6, 0, [], [('1e0', 1.0), ('Infinity', 0.0)], 0.5), F(100, 0, [], [('1', 1.0), ('inf', 0.0)], 0.5),
+              ['obs', 3, 0, [], B(0.5)], ['obs', 1, 0, [], B(2.0)], F(77, 0, [], [('25e-1', 2.0), ('+Inf', 0.0)], 4.0)])
+    # the same bound in three spellings over three files, next to two live processes (label name after 'le')
+    S.append([['obs', 1, 1, ['a'], B(1.0)], ['obs', 2, 1, ['a'], B(1000000.0)], F(5, 1, ['a'], [('1e6', 1.0), ('+Inf', 0.0)], 2.0),
+              F(6, 1, ['a'], [('1000000.0', 2.0), ('inf', 0.0)], 4.0), F(8, 1, ['a'], [('1e+06', 4.0), ('+inf', 1.0)], 8.0),
+              ['obs', 1, 1, ['b'], B(2.0)], ['dead', 1], ['obs', 2, 1, ['a'], B(2000000.0)]])
+    # a bound only the foreign file has
+    S.append([['obs', 1, 0, [], B(1.0)], F(5, 0, [], [('1.5e+010', 1.0), ('+Inf', 0.0)], 1024.0),
+              F(9, 0, [], [('15000000000.0', 2.0), ('4', 1.0), ('Infinity', 1.0)], 2.0), ['obs', 2, 0, [], B(2.5)]])
+    S.append([F(8, 1, ['a'], [('1e16', 1.0), ('1e+16', 2.0), ('10000000000000000.0', 4.0), ('+inf', 0.0)], 0.0),
+              ['obs', 7, 1, ['a'], B(1.0)], F(8, 1, ['a'], [('1e16', 3.0)], 1.0)])
+    # a label set / a histogram no live process has
+    S.append([['obs', 1, 1, ['a'], B(0.5)], F(5, 1, ['only-foreign'], [('1', 1.0), ('1e6', 2.0), ('inf', 3.0)], 7.75),
+              ['obs', 2, 1, ['a'], B(3.0)]])
+    S.append([['obs', 1, 0, [], B(0.5)], F(5, 2, ['x'], [('.1', 1.0), ('1', 1.0), ('10', 2.0), ('+inf', 1.0)], 2.5),
+              F(6, 2, ['x'], [('0.10', 1.0), ('1e1', 1.0), ('Infinity', 0.0)], 0.5), F(6, 2, ['y'], [('inf', 2.0)], 3.0)])
+    # death and reuse of live processes around a foreign file; the foreign file extended (counts overwritten)
+    S.append([['obs', 1, 0, [], B(1.0)], F(5, 0, [], [('1', 2.0), ('inf', 1.0)], 3.0), ['dead', 1], ['reuse', 1],
+              ['obs', 1, 0, [], B(2.0)], F(5, 0, [], [('1', 4.0), ('1.0', 1.0)], 5.0), ['dead', 5], ['obs', 2, 0, [], B(8.0)]])
+    # the default layout next to other spellings of its bounds
+    S.append([['obs', 1, 3, [], B(0.5)], F(5, 3, [], [('0.50', 1.0), ('.5', 2.0), ('5e-1', 4.0), ('1', 1.0), ('10', 1.0), ('+inf', 0.0)], 7.75),
+              ['obs', 2, 3, [], B(0.25)], ['obs', 1, 3, [], B(7.5)]])
+    # many foreign files: the listing mixes them with the live ones
+    S.append([['obs', 1, 0, [], B(1.0)], ['obs', 12, 0, [], B(2.0)]] +
+             [F(q, 0, [], [(['1', '1.0', '1.00', '1e0'][j % 4], 1.0), (['inf', '+inf', 'Infinity', '+Inf'][j % 4], 1.0)], 1.0)
+              for j, q in enumerate(FOREIGN_PIDS)] + [['obs', 123, 0, [], B(3.0)]])
+    # labelled histograms whose label names sort after 'le', observed in two and three processes
+    S.append([['obs', 1, 1, ['a'], B(1.0)], ['obs', 2, 1, ['a'], B(2.0)], ['obs', 2, 1, ['b'], B(1000000.0)], ['child', 3, 1, ['a']],
+              ['obs', 1, 4, ['x', 'a'], B(1.0)], ['obs', 2, 4, ['x', 'a'], B(2.5)], ['obs', 3, 4, ['', 'b'], B(8.0)],
+              ['dead', 2], ['obs', 1, 1, ['a'], B(0.5)], F(5, 4, ['x', 'a'], [('1', 1.0), ('inf', 1.0)], 2.0)])
+    return [{'pool': pool, 'steps': s} for s in S]
+
+
+def gen_foreign_step(rng, pool, cands, mi):
+    md = pool[mi]
+    k = len(md['labels'])
+    lvs = rng.choice(cands[mi]) if rng.random() < 0.6 or not k else [rng.choice(LABEL_VALUES + ['foreign']) for _ in range(k)]
+    own = [b for b, _ in LAYOUTS[md['layout']] if b in SPELLINGS and b != INF]
+    bounds = []
+    for _ in range(rng.randint(0, 3)):
+        b = rng.choice(own) if own and rng.random() < 0.55 else rng.choice([1.5e10, 1e16, 4.0, 1e6, 0.5, 1.0, 10.0, 2.5])
+        if b not in bounds:
+            bounds.append(b)
+    bounds.append(INF)
+    pairs = []
+    for b in bounds:
+        for text in rng.sample(SPELLINGS[b], 2 if rng.random() < 0.25 else 1):
+            pairs.append([text, B(rng.choice([0.0, 1.0, 1.0, 2.0, 3.0, 5.0, 0.5]))])
+    return ['foreign', rng.choice(FOREIGN_PIDS), mi, lvs, pairs, B(rng.choice(SUM_ANY))]
 
 
 def gen_metric(rng, i, all_modes):
     r = rng.random()
     labels = rng.choice(LABEL_NAMES) if rng.random() < 0.55 else []
+    if labels and rng.random() < (0.45 if 0.30 <= r < 0.47 else 0.2):
+        labels = rng.choice(LATE_LABEL_NAMES)
     suffix = rng.choice(['', '_a', '_b_c'])
     if r < 0.17:
         return mdef('counter', 'c%d%s' % (i, suffix), labels)
@@ -635,6 +851,16 @@ def gen_scenario(rng, all_modes, long=False):
                 t += float(rng.choice([1, 1, 2, 0.5]))     # otherwise the clock stands still: a tie
             op = 'set' if q < 0.7 else ('inc' if q < 0.87 else 'dec')
             steps.append([op, pid, mi, lvs, B(gen_value(rng, md, op)), B(t)])
+    if rng.random() < 0.15:     # foreign / stale histogram store files at random positions
+        hs = [j for j, md in enumerate(pool) if md['kind'] == 'histogram']
+        if not hs or rng.random() < 0.25:   # a histogram no live process has
+            pool.append(mdef('histogram', 'hf', rng.choice(LABEL_NAMES + LATE_LABEL_NAMES) if rng.random() < 0.5 else [], '',
+                             rng.choice(sorted(LAYOUTS))))
+            k = len(pool[-1]['labels'])
+            cands.append([[rng.choice(LABEL_VALUES) for _ in range(k)]] if k else [[]])
+            hs.append(len(pool) - 1)
+        for _ in range(rng.randint(1, 3)):
+            steps.insert(rng.randint(len(steps) // 3, len(steps)), gen_foreign_step(rng, pool, cands, rng.choice(hs)))
     return {'pool': pool, 'steps': steps}
 
 
@@ -883,7 +1109,8 @@ def run(ctx):
     all_modes = modes()
     ctx.rule = ('scenario = metric pool (counters, summaries, histograms of 5 bucket layouts, gauges of the 10 modes, labelled or not) '
                 '+ step list over 1-4 simulated processes (create / child / inc / dec / observe / set at a scripted time / '
-                'mark_process_dead / pid reuse); hand-written corpus per mode first, then seeded random scenarios; one case = '
+                'mark_process_dead / pid reuse / foreign histogram store file with non-canonical le spellings, written through the '
+                'library store); label names before and after "le"; hand-written corpus per mode first, then seeded random scenarios; one case = '
                 'one collection point (a collection follows every step); non-trivial when >= 2 processes hold data or a '
                 'death/reuse happened; distinct by the canonical collected output')
     quick = ctx.tier == 'quick'
@@ -895,6 +1122,7 @@ def run(ctx):
         budget *= 1.6
     t0 = time.time()
     rep = Reporter(ctx)
+    check_bound_table()
     probe_label_named_pid(ctx)
     batch = []
     samples_wanted = 4
